@@ -423,6 +423,7 @@ fn payload_same(op: &str, bytes: &[u8], got: &Payload, out: &mut Out) {
 
 /// Execute one op on the implementation; single-op oracle clauses are evaluated here.
 pub fn exec(op: &str, out: &mut Out) -> String {
+    let _crumb = crate::common::crumb::guard(op);
     let w: Vec<&str> = op.split(' ').collect();
     match w.as_slice() {
         ["topic", "new"] => "ok".into(),
